@@ -1025,6 +1025,7 @@ func ttSampleTS(seed uint64) (ts []byte, page, pid int) {
 }
 
 func init() {
+	ttSample = func(seed uint64) []byte { ts, _, _ := ttSampleTS(seed); return ts }
 	extraConcOps = append(extraConcOps, func(seed uint64) string {
 		ts, page, pid := ttSampleTS(seed % 40)
 		s, err := astisub.ReadFromTeletext(bytes.NewReader(ts), astisub.TeletextOptions{Page: page, PID: pid})
